@@ -1362,7 +1362,7 @@ func Run(prop string) func(seed int64, tier, out string) {
 				transitions += t
 			}
 			r.sequences(1200, 300, 25)
-			r.actionSequences(1200, 200, 25)
+			r.actionSequences(600, 120, 25)
 		case tier == "quick":
 			for _, kind := range []string{"none", "pay", "mock"} {
 				r.acting(2, r.g.R.Intn(2), kind, perFile)
